@@ -8,7 +8,7 @@ import os, re, random
 from fractions import Fraction
 import lib, troute
 
-LEVEL = "partial"
+LEVEL = "proof"
 MODULE = "ImathVerif.Props.C06"
 IDX_GJ = os.path.join(lib.VERIF, "harness", "sym", "index_gj.txt")
 DRV = os.path.join(lib.LEAN, ".lake", "build", "bin", "drv_gj")
